@@ -22,6 +22,25 @@ var lanceroReadPeriod = 100 * time.Microsecond
 
 const v04Frames = 20
 
+// The reader never stops its ticker (and go.mod's go 1.21 keeps the old timer semantics: an unstopped ticker
+// is never collected), so thousands of executions in one process would leave thousands of 0.1 ms tickers
+// firing. The build routes the reader's time.NewTicker through this seam and the harness stops the ticker
+// when the execution is over.
+var v04Tickers []*time.Ticker
+
+func v04NewTicker(d time.Duration) *time.Ticker {
+	t := time.NewTicker(d)
+	v04Tickers = append(v04Tickers, t)
+	return t
+}
+
+func v04StopTickers() {
+	for _, t := range v04Tickers {
+		t.Stop()
+	}
+	v04Tickers = v04Tickers[:0]
+}
+
 type v04Geom struct{ ncols, nrows int }
 
 // ground truth
@@ -121,7 +140,7 @@ func (s *v04Script) build() (*v04Card, int) {
 	g := s.g
 	words := g.ncols * g.nrows
 	var full []byte
-	for f := 0; f < v04Frames; f++ {
+	for f := 0; f < len(s.ext); f++ { // the script holds as many frames as it has rows of external-trigger flags
 		for r := 0; r < g.nrows; r++ {
 			for c := 0; c < g.ncols; c++ {
 				e := uint16(v04Err(f, r, c))
@@ -209,6 +228,7 @@ func v04RunScript(x *vexp.X, s *v04Script) vexp.Result {
 		closeIfOpen(ls.abortSelf)
 		for range ls.buffersChan {
 		}
+		v04StopTickers()
 	}()
 
 	out := make([][]RawType, ls.nchan)
@@ -280,7 +300,7 @@ func v04RunScript(x *vexp.X, s *v04Script) vexp.Result {
 	prev := -1
 	for i := 0; i < n; i++ {
 		found := -1
-		for f := prev + 1; f < v04Frames; f++ {
+		for f := prev + 1; f < len(s.ext); f++ {
 			ok := true
 			for r := 0; r < g.nrows && ok; r++ {
 				for c := 0; c < g.ncols; c++ {
@@ -312,17 +332,18 @@ func v04RunScript(x *vexp.X, s *v04Script) vexp.Result {
 				}
 			}
 		}
-		if s.gapB <= s.gapA {
+		{
 			lastIntact := -1
-			for f := 0; f < v04Frames; f++ {
+			for f := 0; f < len(s.ext); f++ {
 				if intact(f) {
 					lastIntact = f
 				}
 			}
+			// (with a gap: the stream must recover; at least two reads of three or more frames follow every gap)
 			if delivered[n-1] < lastIntact-3 {
 				return vexp.Result{Violation: fmt.Sprintf("frames up to %d were completely available but only frames up to %d were delivered (delivered %v)", lastIntact, delivered[n-1], delivered), Class: "frames-not-delivered"}
 			}
-			if delivered[0] > 3 {
+			if s.gapB <= s.gapA && delivered[0] > 3 {
 				return vexp.Result{Violation: fmt.Sprintf("first delivered frame is %d; start-up may discard at most the partial frame and two whole frames", delivered[0]), Class: "frames-not-delivered"}
 			}
 		}
@@ -452,11 +473,36 @@ func v04Take(x *vexp.X, ls *LanceroSource, blk *dataBlock, bi int, out [][]RawTy
 	return ""
 }
 
+type v04Chunking struct {
+	avail    []int // cumulative bytes (original stream offsets) available at each driver read
+	boundary int   // the read boundary around which the gap is placed (a frame boundary of the stream)
+}
+
+// v04GapChunkings: the read before the boundary always ends on it or after it, at least two reads of >= 3 frames
+// follow the window in which the gap lies.
+func v04GapChunkings(fs, startOff, end int) []v04Chunking {
+	o := 4 * startOff
+	f := func(frames int, extra int) int { return frames*fs - o + extra }
+	tail := []int{f(20, 0), f(24, 0), f(28, 0), end} // the stream goes on long enough for any recovery to show
+	cs := []v04Chunking{
+		{[]int{f(4, 0), f(8, 0), f(12, 0), f(16, 0)}, f(8, 0)},           // frame-aligned reads
+		{[]int{f(4, 0), f(7, 4), f(11, 0), f(15, 0)}, f(11, 0)},          // second boundary
+		{[]int{f(4, 0), f(8, 0), f(9, 0), f(13, 0), f(17, 0)}, f(8, 0)},  // a too-short read right after the boundary
+		{[]int{f(4, 0), f(8, 0), f(10, 4), f(11, 0), f(15, 0)}, f(8, 0)}, // a too-short read after the read that holds the gap
+		{[]int{f(4, 0), f(8, fs/2), f(12, 4), f(16, 0)}, f(8, 0)},        // reads that end inside a frame
+		{[]int{f(4, 0), f(8, 0), f(16, 0)}, f(8, 0)},                     // one long read holds the gap
+	}
+	for i := range cs {
+		cs[i].avail = append(cs[i].avail, tail...)
+	}
+	return cs
+}
+
 func TestVerifC04(t *testing.T) {
 	r := vexp.NewRunner("C04")
 	r.CrashTrace = true
 	defer r.Finish()
-	r.SetBound(fmt.Sprintf("geometries (columns x rows) in {1,2,3}x{2,3}, %d frames of position-tagged words, stream starting 0-2 words into a frame; chunkings: every way to make 1-3 driver reads end at offsets from a grid of byte positions (frame-aligned, word-aligned and mid-word, shorter and longer than 3 frames); external-trigger flag rising at every single (frame,row) and at pairs; mix fraction in {0.5,-1.5,400} switched on before block 0, 1 or 2; one gap of lost bytes on a grid of positions and lengths", v04Frames))
+	r.SetBound(fmt.Sprintf("geometries (columns x rows) in {1,2,3}x{2,3}, %d frames (gap family: 32) of position-tagged words, stream starting 0-2 words into a frame; chunkings: every way to make 1-3 driver reads end at offsets from a grid of byte positions (frame-aligned, word-aligned and mid-word, shorter and longer than 3 frames); external-trigger flag rising at every single (frame,row) and at pairs; mix fraction in {0.5,-1.5,400} switched on before block 0, 1 or 2; one gap of lost words of 8 lengths (1 word .. 3 frames + a row, never a whole number of frames) starting at every word offset of a three-frame window around a read boundary, for 6 chunkings (frame-aligned, not aligned, a too-short read after the loss, one long read)", v04Frames))
 	var geoms []v04Geom
 	for c := 1; c <= 3; c++ {
 		for rr := 2; rr <= 3; rr++ { // one row: every word carries the frame bit, frames cannot be told apart
@@ -550,35 +596,36 @@ func TestVerifC04(t *testing.T) {
 				s.mixAt = x.Choose(3)
 				return v04RunScript(x, s)
 			})
-			// family 4: a gap of lost bytes
-			r.DFSSharded(fmt.Sprintf("gap/%dx%d/start%d", g.ncols, g.nrows, startOff), -1, 2, func(x *vexp.X) vexp.Result {
-				s := &v04Script{g: g, startOff: startOff, ext: noExt(g), mixAt: -1}
-				// The read before the loss ends exactly on the frame boundary where the loss begins and is long
-				// enough (>= 3 frames) to be consumed completely, so that the lost bytes really are the first
-				// bytes of a later read; at least two productive reads follow.
-				s.avail = []int{4*fs - 4*startOff, 8*fs - 4*startOff, 12*fs - 4*startOff, 16*fs - 4*startOff, end}
-				k := 1
-				if x.Choose(2) == 1 {
-					s.avail = []int{4*fs - 4*startOff, 7*fs - 4*startOff + 4, 11*fs - 4*startOff, 15*fs - 4*startOff, end}
-					k = 2
-				}
-				gl := []int{1, 2, words - 1, words + 1, 2*words - 1, 2*words + 1}[x.Choose(6)]
-				if gl < 1 || gl%words == 0 {
-					return vexp.Result{Outcome: "gap-not-observable"}
-				}
-				s.gapA = s.avail[k]
-				s.gapB = s.gapA + 4*gl
-				for j := k + 1; j < len(s.avail); j++ {
-					if s.avail[j] < s.gapB+4*words {
-						s.avail[j] = s.gapB + 4*words
+			// family 4: a gap of lost words, at every word offset of a three-frame window around a read boundary
+			// (last frame of the read before it, first and second frame of the read after it: a loss noticed at the
+			// start of a read, and one in the middle of a read), for several chunkings incl. a too-short read right
+			// after the loss and reads that are not frame-aligned.
+			const gapFrames = 32
+			gapEnd := gapFrames*fs - 4*startOff
+			for ci, chunk := range v04GapChunkings(fs, startOff, gapEnd) {
+				ci, chunk := ci, chunk
+				r.DFSSharded(fmt.Sprintf("gap/%dx%d/start%d/chunk%d", g.ncols, g.nrows, startOff, ci), -1, 2, func(x *vexp.X) vexp.Result {
+					s := &v04Script{g: g, startOff: startOff, mixAt: -1}
+					s.ext = make([][]bool, gapFrames)
+					for f := range s.ext {
+						s.ext[f] = make([]bool, g.nrows)
 					}
-				}
-				if s.avail[len(s.avail)-1] > end {
-					return vexp.Result{Outcome: "gap-too-late"}
-				}
-				s.ext[15][0] = true
-				return v04RunScript(x, s)
-			})
+					s.avail = append([]int{}, chunk.avail...)
+					lens := []int{1, 2, g.ncols, words - 1, words + 1, 2*words - 1, 2*words + 1, 3*words + g.ncols}
+					gl := lens[x.Choose(len(lens))]
+					pos := x.Choose(3 * words) // word offset of the gap start relative to (boundary - one frame)
+					if gl < 1 || gl%words == 0 {
+						return vexp.Result{Outcome: "gap-not-observable"}
+					}
+					s.gapA = chunk.boundary - fs + 4*pos
+					s.gapB = s.gapA + 4*gl
+					if s.gapA <= s.avail[0] || s.gapB+6*fs > gapEnd {
+						return vexp.Result{Outcome: "gap-out-of-range"}
+					}
+					s.ext[25][0] = true
+					return v04RunScript(x, s)
+				})
+			}
 		}
 	}
 }
